@@ -185,6 +185,19 @@ GEN_TIES = {
         "gen": "gen_height.py", "gen_file": "GscribModel/Gen/HeightSrc.lean", "tie": "HeightTie", "validate": "harness.tie_height",
         "what": "the heightmap model no longer equals the raster / sparse / flat heightmap classes translated from gscrib/heightmaps/",
     },
+    "sender": {
+        "props": {"C15"},
+        "gen": "gen_sender.py", "gen_file": "GscribModel/Gen/SenderSrc.lean", "tie": "SenderTie", "validate": "harness.tie_sender",
+        "what": "the sender model's actions no longer equal the printcore methods translated from gscrib/printrun/printcore.py",
+    },
+    "dwrite": {
+        "props": {"C16"},
+        "gen": "gen_dwrite.py", "gen_file": "GscribModel/Gen/DirectWriteSrc.lean", "tie": "DirectWriteTie", "validate": "harness.tie_dwrite",
+        "gens": [("gen_report.py", "GscribModel/Gen/ReportSrc.lean"), ("gen_dwrite.py", "GscribModel/Gen/DirectWriteSrc.lean")],
+        "ties": ["ReportTie", "DirectWriteTie"],
+        "what": "the caller / print-thread / callback actions of the direct-write model no longer equal the PrintrunWriter and printcore "
+                "methods translated from gscrib/writers/printrun_writer.py and gscrib/printrun/printcore.py",
+    },
     "state": {
         "props": {"C02", "C03", "C05", "C06", "C07"},
         "gen": "gen_state.py", "gen_file": "GscribModel/Gen/StateSrc.lean", "tie": "StateTie", "validate": "harness.tie_state",
